@@ -783,6 +783,7 @@ fn reader_generated(ctx: &Ctx, rep: &Report) {
     par_shards(rep, ctx.threads, n_shards, |shard| {
         let mut rng = Rng::new(ctx.seed, "C10/reader-generated", shard as u64);
         let mut loc = rep.local();
+        let lead_chars = gen::lead_byte_chars();
         for _ in 0..per {
             let f = gen_valid(&mut rng);
             let s = f.render();
@@ -795,11 +796,15 @@ fn reader_generated(ctx: &Ctx, rep: &Report) {
             }
             bk(&mut loc, K::r_generated_valid);
             check_reader(&mut loc, &s, Origin { kind: "generated-valid", base: None, nontrivial: true });
-            // besides the fixed alphabet: two random scalar values and eight random ASCII characters
-            let mut extra = [' '; 10];
+            // besides the fixed alphabet: two random scalar values, eight random ASCII characters and four
+            // characters drawn from one-per-UTF-8-lead-byte
+            let mut extra = [' '; 14];
             extra[0] = random_scalar(&mut rng);
             extra[1] = random_scalar(&mut rng);
-            for e in extra[2..].iter_mut() {
+            for e in extra[10..].iter_mut() {
+                *e = *rng.pick(&lead_chars);
+            }
+            for e in extra[2..10].iter_mut() {
                 *e = rng.below(128) as u8 as char;
             }
             all_single_edits(&mut loc, &s, &extra);
@@ -1537,7 +1542,7 @@ pub fn run(ctx: &Ctx) -> Outcome {
     reader_generated(ctx, &rep);
     reader_near_misses(ctx, &rep);
     reader_arbitrary(ctx, &rep);
-    rep.set_extra("single_edit_alphabet_size", json!(ALPHABET.len() + 10));
+    rep.set_extra("single_edit_alphabet_size", json!(ALPHABET.len() + 14));
     let _: Value = json!(null);
     rep.finish(
         ctx,
